@@ -110,7 +110,7 @@ Definition tabcdf (tf tc tg : list (Q * option Q)) (c : copula) (z : Q) : option
   match fam c with Frank => lookup tf z | Clayton => lookup tc z | Gumbel => lookup tg z end.
 Definition zidx (o : option nat) : list Z := match o with Some i => [Z.of_nat i] | None => [(-1)%Z] end.
 '''
-IMPORTS = ('From Cop Require Import Model.BivCtl Model.SelectCopula.\nFrom CopRun Require Import Gen_bivq.\n'
+IMPORTS = ('From Coq Require Import Qabs.\nFrom Cop Require Import Model.BivCtl Model.SelectCopula.\nFrom CopRun Require Import Gen_bivq.\n'
            'Import ListNotations.\nOpen Scope Q_scope.\n' + COQ_SHOW)
 
 
@@ -377,10 +377,11 @@ def check_expected(X, expect, mode=None, gname=None):
         ok = res[0] == e[0] and res[1] == e[1] and (res[0] == 'err' or (close_f(res[2], e[2]) and close_f(res[3], e[3])))
         if not ok:
             bad.append(f'select_copula: implementation {res}, model {e}')
+    rel = expect.get('rel', 1e-9)
     if 'emp' in expect:
         got = rec.get('emp')
         for nm, a, b in zip(('z_left', 'L', 'z_right', 'R'), got or ([], [], [], []), expect['emp']):
-            if len(a) != len(b) or any(not close_f(x, y) for x, y in zip(a, b)):
+            if len(a) != len(b) or any(not close_f(x, y, rel) for x, y in zip(a, b)):
                 bad.append(f'_compute_empirical {nm}: implementation {list(a)[:4]}.. (len {len(a)}), model {list(b)[:4]}.. (len {len(b)})')
     if 'cands' in expect:
         got = [(f, th) for f, th, _ in rec['cands']]
@@ -388,9 +389,15 @@ def check_expected(X, expect, mode=None, gname=None):
         if len(got) != len(e) or any(g[0] != m[0] or not close_f(g[1], m[1]) for g, m in zip(got, e)):
             bad.append(f'candidates: implementation {got}, model {e}')
     if 'tails' in expect and 'tails' in rec:
+        zs = (rec['emp'][0], rec['emp'][2])
         for side in (0, 1):
             for j, (a, b) in enumerate(zip(rec['tails'][side], expect['tails'][side])):
-                if b is not None and (len(a) != len(b) or any(not close_f(x, y) for x, y in zip(a, b))):
+                if b is None:
+                    continue
+                okt = len(a) == len(b) and len(a) == len(zs[side]) and all(
+                    (x != x and y != y) or abs(x - y) <= rel * (1 + abs(y)) + (2 * rel / (1 - z) ** 2 if side == 1 and z < 1 else 0)
+                    for x, y, z in zip(a, b, zs[side]))
+                if not okt:
                     bad.append(f'candidate {j} {"left" if side == 0 else "right"} tail differs from the model')
     if 'linspace' in expect:
         if rec.get('linspace_calls') != expect['linspace']:
@@ -548,7 +555,8 @@ def run(ctx):
     for name, X, kind in ds:
         pinfo = {}
         bad = property_failures(X, pinfo)
-        ctx.case(('oracle', name), {'level': 'oracle', 'dataset': name, 'n': len(X), 'tau': pinfo.get('tau'), 'result': pinfo.get('result')},
+        n_or = sum(1 for s_ in ctx.samples if s_.get('level') == 'oracle')
+        ctx.case(('oracle', name), {'level': 'oracle', 'dataset': name, 'n': len(X), 'tau': pinfo.get('tau'), 'result': pinfo.get('result')} if n_or < 3 else None,
                  nontrivial=pinfo.get('result', ('err',))[0] == 'ok')
         ctx.obligation(f'oracle:{name}', not [b for b in bad if not b[0].startswith('F')], 'witness-search', '; '.join(w for _, w in bad))
         if 'quirk' in pinfo:
@@ -569,8 +577,7 @@ def run(ctx):
     ctx.extra['frank_true_tau_equation_max_abs_residual_report_only'] = frank_true_dev
 
     if q_ok:
-        corr_l1(ctx, ds, quick)
-        corr_l2(ctx, l2)
+        run_streams(ctx, [corr_l1(ctx, ds, quick), corr_l2(ctx, l2)])
         if frank_goals and st_biv.get('frank_compute_theta') is None:
             hdr = 'From Coquelicot Require Import Coquelicot.\nFrom CopRun Require Import Gen_biv.'
             if not proofs_ok:
@@ -593,6 +600,20 @@ def run(ctx):
                         'Frank calibration is relative to the solver hypothesis (least_squares returns a root of the generated residual), checked per run']
 
 
+def run_streams(ctx, gens):
+    """each stream: prepare (runs the implementation with patched oracles; sequential, the patches are process-global),
+    yield its Coq cases, judge the results.  The Coq evaluations of the streams run concurrently."""
+    from concurrent.futures import ThreadPoolExecutor
+    reqs = [next(g) for g in gens]
+    with ThreadPoolExecutor(len(gens)) as ex:
+        outs = list(ex.map(lambda r: cases.run_vm_cases(ctx, *r[0], **r[1]), reqs))
+    for g, o in zip(gens, outs):
+        try:
+            g.send(o)
+        except StopIteration:
+            pass
+
+
 def fail_corr(ctx, key, name, what, X, expect, mode=None, gname=None):
     ctx.violation(key, f'dataset {name}: {what}',
                   {'dataset': name, 'X': np.asarray(X).tolist(), 'what': what, 'mode': mode, 'grid': gname,
@@ -605,10 +626,16 @@ def slug(name):
 
 def corr_l1(ctx, ds, quick):
     from copulas.utils import EPSILON
-    fgrid = [float(x) for x in np.linspace(float(EPSILON), 1.0 - float(EPSILON), 50)]
+    # the grid exactly as the library builds it (EPSILON is a numpy float32 scalar: under numpy >= 2 the whole grid, hence
+    # base[k] ** 2, (1 - z) ** 2, the cdf arguments and the candidate tails are float32)
+    garr = np.linspace(EPSILON, 1.0 - EPSILON, 50)
+    eps_m = 2.0 ** -24 if garr.dtype == np.float32 else 2.0 ** -53
+    ctx.extra['grid_dtype'] = str(garr.dtype)
+    fgrid = [float(x) for x in garr]
     hdr = IMPORTS + f'Definition fbase : list Q := {qlist(fgrid)}.\n'
     exprs, meta = [], []
-    exprs.append('(Nat.eqb (length fbase) (length library_base) && forallb (fun p => Qle_bool (Qabs (fst p - snd p)) (1 # 1125899906842624)) '
+    gtol = q(Fraction(4 * eps_m))
+    exprs.append('(Nat.eqb (List.length fbase) (List.length library_base) && forallb (fun p => Qle_bool (Qabs (fst p - snd p)) ' + gtol + ') '
                  '(combine fbase library_base))%bool')
     meta.append(('grid', None, None, None))
     runs = {}
@@ -658,7 +685,7 @@ def corr_l1(ctx, ds, quick):
                 ol = lambda d: '[' + '; '.join(oq(x) for x in d) + ']'
                 exprs.append(f'zidx (np_argmax (add3 (rank_desc {ol(dl)}) (rank_desc {ol(dr)}) (rank_desc {ol(db)})))')
                 meta.append(('argmax', name, X, rec))
-    outs = cases.run_vm_cases(ctx, 'Cases_C11_L1', hdr, exprs, per_file=max(4, len(exprs) // 16 + 1))
+    outs = yield (('Cases_C11_L1', hdr, exprs), {'per_file': 3})
     n_ok = 0
     for (stage, name, X, rec), o in zip(meta, outs):
         g = groups(o)
@@ -696,10 +723,10 @@ def corr_l1(ctx, ds, quick):
             mz = [pairs(x) for x in g[1:5]]
             iz = rec['emp']
             ok_z = all(len(a) == len(b) and all(x == Fraction(y) for x, y in zip(a, b)) for a, b in ((mz[0], iz[0]), (mz[2], iz[2])))
-            ok_v = all(len(a) == len(b) and all(close(x, y) for x, y in zip(a, b)) for a, b in ((mz[1], iz[1]), (mz[3], iz[3])))
-            expect = {'emp': [[float(x) for x in part] for part in mz]}
+            ok_v = all(len(a) == len(b) and all(close(x, y, 8 * eps_m) for x, y in zip(a, b)) for a, b in ((mz[1], iz[1]), (mz[3], iz[3])))
+            expect = {'emp': [[float(x) for x in part] for part in mz], 'rel': 8 * eps_m}
             ctx.obligation(f'corr:L1:compute_empirical:{name}', ok_z and ok_v, 'correspondence',
-                           f'lengths model {[len(x) for x in mz]} implementation {[len(x) for x in iz]}; grid points exact: {ok_z}; L/R within 1e-12: {ok_v}')
+                           f'lengths model {[len(x) for x in mz]} implementation {[len(x) for x in iz]}; grid points exact: {ok_z}; L/R within {8 * eps_m:.1e} relative: {ok_v}')
             if not (ok_z and ok_v):
                 fail_corr(ctx, f'corr:L1:compute_empirical-disagrees:{slug(name)}', name,
                           f'_compute_empirical differs from the model (lengths model {[len(x) for x in mz]}, implementation {[len(x) for x in iz]})', X, expect)
@@ -726,7 +753,12 @@ def corr_l1(ctx, ds, quick):
                 continue
             ml, mr = pairs(g[0]), pairs(g[1])
             il, ir = rec['tails'][0][j], rec['tails'][1][j]
-            ok = len(ml) == len(il) and len(mr) == len(ir) and all(close(x, y, 1e-11) for x, y in zip(ml + mr, il + ir))
+            # float rounding of the implementation (precision eps_m): v / z^2 relative; 1 - 2z + c absolute, then / (1-z)^2
+            zr_ = rec['emp'][2]
+            ok = len(ml) == len(il) and len(mr) == len(ir) and all(close(x, y, 8 * eps_m) for x, y in zip(ml, il)) \
+                and all(isinstance(x, Fraction) and y == y and not math.isinf(y)
+                        and abs(x - Fraction(y)) <= Fraction(16 * eps_m) / (1 - Fraction(z)) ** 2 + Fraction(8 * eps_m) * abs(x)
+                        if isinstance(x, Fraction) else close(x, y) for x, y, z in zip(mr, ir, zr_))
             ctx.obligation(f'corr:L1:candidate-tails:{name}:{rec["cands"][j][0]}', ok, 'correspondence',
                            f'lengths model {len(ml)},{len(mr)} implementation {len(il)},{len(ir)}')
             if not ok:
@@ -734,7 +766,7 @@ def corr_l1(ctx, ds, quick):
                 exp_t[0][j] = [float(x) for x in ml]
                 exp_t[1][j] = [float(x) for x in mr]
                 fail_corr(ctx, f'corr:L1:candidate-tails-disagree:{slug(name)}', name,
-                          f'_compute_candidates for {rec["cands"][j][0]} differs from cand_left/cand_right of the model', X, {'tails': exp_t})
+                          f'_compute_candidates for {rec["cands"][j][0]} differs from cand_left/cand_right of the model', X, {'tails': exp_t, 'rel': 8 * eps_m})
             # the sums of squares against exact fractions (the step vm_compute cannot afford on the real grid)
             for side, emp_l, imp in ((0, rec['emp'][1], il), (1, rec['emp'][3], ir)):
                 d = rec['diffs'][side][j]
@@ -819,7 +851,7 @@ def corr_l2(ctx, l2):
         tabs = ' '.join('[' + '; '.join(f'({q(z)}, {oq(v)})' for z, v in sorted(rec['cdf'][f].items())) + ']' for f in FAMS)
         exprs.append(f'zres (select_copula (tabcdf {tabs}) (Some ({q(tau)}, Finite {q(thF)})) {uvlist(X)} {qlist(grid)})')
         meta.append((name, X, mode, gname, rec))
-    outs = cases.run_vm_cases(ctx, 'Cases_C11_L2', IMPORTS, exprs, per_file=1, timeout=600)
+    outs = yield (('Cases_C11_L2', IMPORTS, exprs), {'per_file': 1, 'timeout': 600})
     n_ok = 0
     for (name, X, mode, gname, rec), o in zip(meta, outs):
         res = rec['result']
